@@ -45,6 +45,7 @@ import dns.versioned
 import dns.zone
 import dns.zonefile
 
+from .. import core
 from ..refs import c04_corpus as corpus
 
 PROPERTY = "C04"
@@ -64,6 +65,7 @@ class _Clock:
 
 
 dns.message.time = _Clock  # TSIG validation/signing inside dns.message reads time.time()
+# (dns.rdataset.random is pinned by the corpus module: no shuffling of RRsets when rendering)
 
 
 # ---------------------------------------------------------------- watchdog
@@ -513,7 +515,9 @@ _DIRECTIVES = {"all": True, "none": False, "ttl-only": ["$TTL"]}
 
 
 def _render_zone(z):
-    z.to_text()
+    # a zone that never learned an origin (no origin argument, no usable $ORIGIN, no data)
+    # cannot be relativized; render it the way that is defined for it
+    z.to_text(relativize=z.origin is not None)
     for name, node in z.items():
         for rds in node:
             rds.to_wire(name, io.BytesIO(), origin=z.origin)
@@ -625,8 +629,7 @@ _ENTRY_LABEL = {"mw": "msg-wire", "nw": "name-wire", "rw": "rdata-wire", "nt": "
 
 
 HANG_LIMIT = 8
-_TRACE = os.environ.get("C04_TRACE")  # development aid: per-case outcome log
-from ..core import jsonable as core_jsonable  # noqa: E402
+_TRACE = os.environ.get("C04_TRACE")  # development aid: per-case outcome log (one file per worker)
 
 
 class ShardAbort(Exception):
@@ -638,7 +641,7 @@ def judge(col, case, base, kind):
     label, probs = run_case(case)
     if _TRACE:
         with open("%s.%d" % (_TRACE, os.getpid()), "a") as f:
-            f.write("%s\t%s\n" % (label, sorted(core_jsonable(case).items())))
+            f.write("%s\t%s\n" % (label, sorted(core.jsonable(case).items())))
     entry = _ENTRY_LABEL[case["e"]]
     col.count("evaluations")
     col.count("cases:" + entry)
@@ -1088,6 +1091,12 @@ def shard_zone_text(task, col):
             continue
         for zopt in opts[kind.split("-")[0]]:
             judge(col, {"e": "zt", "text": t, "origin": origin, "zopt": list(zopt)}, zname, kind)
+    if part == 0 and zname == sorted(corpus.ZONES)[0]:
+        # degenerate files under every option combination
+        for t in ["", "\n", "; only a comment\n", "$TTL 5\n", "$ORIGIN rel\n", "$ORIGIN example.\n",
+                  "$ORIGIN rel\n@ 5 SOA a b 1 2 3 4 5\n@ 5 NS a\n"]:
+            for zopt in opts["valid"]:
+                judge(col, {"e": "zt", "text": t, "origin": origin, "zopt": list(zopt)}, "degenerate", "listed")
 
 
 def shard_rrsets_text(task, col):
@@ -1134,7 +1143,9 @@ def worker(task, col):
         try:
             _SHARDS[task[0]](task, col)
         finally:
-            col.count("cpu_ms:" + task[0], int((time.process_time() - t0) * 1000))
+            ms = int((time.process_time() - t0) * 1000)
+            col.count("cpu_ms:" + task[0], ms)
+            col.max("max_shard_cpu_ms", ms)
     except ShardAbort:
         col.cap("shard %r abandoned after %d watchdog expiries (each costs %gs)" % (
             tuple(str(x)[:40] for x in task[:4]), HANG_LIMIT + 1, WATCHDOG_S))
@@ -1160,9 +1171,12 @@ def run(ctx):
     ctx.assume("$GENERATE ranges in the corpus are <= 16 steps; unbounded shifts such as 'flags FLAG<10^11>' in "
                "message text are not executed (a C-level shift cannot be interrupted by the watchdog); FLAG16 and "
                "FLAG77 stand in for them")
-    ctx.assume("dns.message.time is pinned to %d so TSIG validation of the corpus is deterministic" % corpus.NOW)
+    ctx.assume("dns.message.time is pinned to %d and dns.rdataset.random.shuffle is a no-op, so the corpus and "
+               "TSIG validation are deterministic" % corpus.NOW)
     ctx.assume("dns.edns.option_from_wire is reached through OPT records/messages only (DESIGN reading)")
 
+    if only:
+        ctx.cap("C04_ONLY=%s: only these sections were run" % ",".join(sorted(only)))
     msgs = messages(quick)
     rdata_wires()
     incdir()
@@ -1250,7 +1264,7 @@ def run(ctx):
         "zones": sorted(corpus.ZONES), "junk_lines": len(prof["junk"]), "line_replacement": prof["line_repl"],
         "char_alphabet": prof["chars"], "char_insertions": prof["insert"],
         "option_vectors": {k: len(v) for k, v in zone_opts_for(quick).items()},
-        "token_replacements": ZONE_TOKEN_REPL}
+        "token_replacements": [t if t != BIGNUM else "<1 x %d>" % len(BIGNUM) for t in ZONE_TOKEN_REPL]}
     bounds["read_rrsets_inputs"] = sorted(corpus.RRSETS)
     bounds["message_texts"] = sorted(corpus.MESSAGE_TEXTS)
     if want("zt"):
@@ -1268,7 +1282,13 @@ def run(ctx):
                 tasks.append(("mt", mname, quick, part, nparts))
     bounds["shards"] = len(tasks)
     bounds["wire_fault_alphabet"] = ["%02x" % v for v in WIRE_ALPHA] + ["b^1", "b+1"]
-    bounds["token_replacements"] = TOKEN_REPL
+    bounds["alphabets"] = {"header_body": ["%02x" % v for v in BODY_ALPHA], "name_wire": ["%02x" % v for v in NAME_ALPHA],
+                           "rdata_wire": ["%02x" % v for v in RDATA_ALPHA], "name_text": NAME_TEXT_ALPHA,
+                           "ttl_text": TTL_ALPHA}
+    bounds["header_flag_words"] = ["%04x" % f for f in HEADER_FLAGS]
+    bounds["header_count_vectors"] = len(HEADER_COUNTS)
+    bounds["watchdog_cpu_s"] = WATCHDOG_S
+    bounds["token_replacements"] = [t if t != BIGNUM else "<1 x %d>" % len(BIGNUM) for t in TOKEN_REPL]
     ctx.extra["bounds"] = bounds
     # heavy shards first so the pool drains evenly
     order = {"rt": 0, "msg": 1, "zt": 2, "mt": 3}
